@@ -397,6 +397,61 @@ func TestSub_reject(t *testing.T) {
 	})
 }
 
+// ---------------------------------------------------------------------------------------
+// lengths: "two accepted inputs receive the same seqhash only if they denote the same molecule". Whatever the other
+// strand of a letter without a complement (Z, U as DNA) may be, molecules of different length are different molecules:
+// an accepted input and the same input with one letter removed, or one letter added, never share a seqhash. This is
+// the part of the injectivity clause that can be judged for every accepted letter under every flag combination.
+
+type LenCase struct {
+	S    string `json:"s"`
+	Type string `json:"type"`
+	Circ bool   `json:"circular"`
+	DS   bool   `json:"double_stranded"`
+}
+
+func checkLengths(c LenCase) error {
+	h, err := seqhash.Hash(c.S, c.Type, c.Circ, c.DS)
+	if err != nil {
+		return nil // not an accepted input
+	}
+	relatives := []string{c.S + c.S[:1], c.S + "A"}
+	for i := 0; i < len(c.S) && len(c.S) > 1; i++ {
+		relatives = append(relatives, c.S[:i]+c.S[i+1:])
+	}
+	for _, r := range relatives {
+		hr, err := seqhash.Hash(r, c.Type, c.Circ, c.DS)
+		if err == nil && hr == h {
+			return vk.Errf("Hash(%q) = Hash(%q) = %s (%s circular=%v doubleStranded=%v): molecules of %d and of %d letters share a seqhash", c.S, r, h, c.Type, c.Circ, c.DS, len(c.S), len(r))
+		}
+	}
+	return nil
+}
+
+var subLengths = vk.Register(&vk.Sub[LenCase]{Name: "lengths", Check: checkLengths, NonTrivial: func(c LenCase) bool { return len(c.S) >= 2 }})
+
+func TestSub_lengths(t *testing.T) {
+	vk.RunEnum(t, subLengths, "every string of 1..4 letters over ACGTUZN and of 1..3 letters over aAzZuUtT as DNA and as RNA, and every string of 1..3 letters over ACDEZ*UO as PROTEIN, x the flag pairs the type allows: against the same string with one letter removed (each position) or added", true, func(yield func(LenCase) bool) {
+		for _, typ := range []string{"DNA", "RNA", "PROTEIN"} {
+			for _, fp := range flagPairs {
+				if typ == "PROTEIN" && fp[1] {
+					continue
+				}
+				each := func(s string) bool { return yield(LenCase{S: s, Type: typ, Circ: fp[0], DS: fp[1]}) }
+				if typ == "PROTEIN" {
+					if !vk.EachString("ACDEZ*UO", 1, 3, each) {
+						return
+					}
+					continue
+				}
+				if !vk.EachString("ACGTUZN", 1, 4, each) || !vk.EachString("aAzZuUtT", 1, 3, each) {
+					return
+				}
+			}
+		}
+	})
+}
+
 var subUnicode = vk.Register(&vk.Sub[Case]{Name: "unicode", Check: check, NonTrivial: nonTrivial, Sample: sample})
 
 // unicode: every Unicode code point that is not an ASCII letter of the type's alphabet, alone and inside a valid
